@@ -12,7 +12,7 @@ import (
 func init() {
 	register(&propInfo{
 		ID:          "C02",
-		Explanation: "Value-origin and path analysis of the response-routing mechanism of the WebSocket client: (R02.1) request ids are minted only by sync/atomic operations on the client's counter, pass through the id normaliser, and nothing else is stored in a request's id; (R02.2) every id-bearing request that is accepted is registered in the in-flight table under its own id, as itself; (R02.3) every mailbox is a fresh channel of capacity >= 1; (R02.4) the response handler delivers to the mailbox of the entry looked up under the response's own id, with result/error/id taken from that same frame; (R02.5) delivery is single: the response handler removes the entry on every path after delivering, the failer empties the table, the accept arm answers only requests it did not register; (R02.6) frames are executed in arrival order: one executor goroutine started outside any loop, enqueue before the next read is started, synchronous dispatch down to the response / channel handlers; (R02.7) the frame decode target is a zero-valued allocation made per frame (decoding into a recycled struct would alias buffers already handed to callers and handlers). (R02.9) the request queue is unbuffered: the hand-over to the connection loop is a rendezvous, so no request is left in a buffer when the loop exits. (R02.10) the connection-unusable mark is set before every loss signal and cleared only after a new socket is installed.",
+		Explanation: "Value-origin and path analysis of the response-routing mechanism of the WebSocket client: (R02.1) request ids are minted only by sync/atomic operations on the client's counter, pass through the id normaliser, and nothing else is stored in a request's id; (R02.2) every id-bearing request that is accepted is registered in the in-flight table under its own id, as itself; (R02.3) every mailbox is a fresh channel of capacity >= 1; (R02.4) the response handler delivers to the mailbox of the entry looked up under the response's own id, with result/error/id taken from that same frame; (R02.5) delivery is single: the response handler removes the entry on every path after delivering, the failer empties the table, the accept arm answers only requests it did not register; (R02.6) frames are executed in arrival order: one executor goroutine started outside any loop, enqueue before the next read is started, synchronous dispatch down to the response / channel handlers; (R02.7) the frame decode target is a zero-valued allocation made per frame (decoding into a recycled struct would alias buffers already handed to callers and handlers). (R02.9) the request queue is unbuffered: the hand-over to the connection loop is a rendezvous, so no request is left in a buffer when the loop exits. (R02.10) the connection-unusable mark is set before every loss signal and cleared only after a new socket is installed. (R02.11) no handler runs on the frame executor; (R02.12) the reverse client is built per connection; (R02.13) every hand-over to the loop watches the current exit signal.",
 		NotDecided:  "That a given schedule completes; HTTP (one exchange per call, no shared routing state); the redundant response-id equality checks on the caller side (defensive only).",
 		Assumptions: []string{"encoding/json reuses the backing array of a pre-populated []byte/RawMessage field when decoding into it", "the connection loop is the only receiver of the request queue"},
 		Run:         runC02,
